@@ -184,7 +184,7 @@ package config
 // The per-entry decision for one registered check: the state gate, file-level disables, every matching rule {} block
 // (a disable in any matching block wins, otherwise an enable in some matching block wins over the global lists),
 // then the global lists. No rule {} block is skipped before the check is enabled.
-//@ func parsedRule.isEnabled [C08]
+//@ func parsedRule.isEnabled [C08, C07]
 //@   ghost statesOK bool
 //@   ghost gate bool
 //@   ghost blocks int
